@@ -105,3 +105,44 @@ func c16CombineShared() {
 	}
 	simrt.Quiesce(-1)
 }
+
+func init() {
+	Register(Harness{Prop: "C16", Name: "C16/recombine", Run: c16Recombine, Weight: 1})
+}
+
+// c16Recombine: a result of CombineContext is detached from cancellation (context.WithoutCancel, or
+// as the first input of ConflatedContext, which keeps its values only) and combined again with the
+// same other context: a new result, cancelled exactly when that other is.
+func c16Recombine() {
+	req := c16DrawInput(0)
+	shutdown := c16DrawInput(1)
+	req.pre, shutdown.pre = false, false
+	if shutdown.invoked { // (an input that may expire by itself would make "live" undecidable)
+		shutdown = &c16In{idx: 1}
+		shutdown.ctx, shutdown.cancel = context.WithCancel(context.Background())
+	}
+	first := bigbuff.CombineContext(req.ctx, shutdown.ctx)
+	var detached context.Context
+	var release context.CancelFunc = func() {}
+	if simrt.Chance(1, 2) {
+		detached = context.WithoutCancel(first)
+	} else {
+		detached, release = bigbuff.ConflatedContext(first, context.Background())
+	}
+	defer release()
+	second := bigbuff.CombineContext(detached, shutdown.ctx)
+	simrt.Probe("result_detached_and_combined_again")
+	simrt.Quiesce(-1)
+	if second.Err() != nil && !req.invoked {
+		simrt.Failf("C16.combine-spurious", "re-combined result is cancelled (%v) although nothing has been cancelled", second.Err())
+		return
+	}
+	shutdown.doCancel()
+	simrt.Quiesce(-1)
+	if second.Err() == nil {
+		simrt.Failf("C16.combine-not-cancelled", "CombineContext(detached result of an earlier CombineContext, shutdown): shutdown has been cancelled and everything is quiescent, but the result is still live")
+		return
+	}
+	req.cancel()
+	simrt.Quiesce(-1)
+}
